@@ -137,3 +137,19 @@ package core
 //@   ensures[C06] @pool err == nil ==> uint64(*st.gp) == old(uint64(*st.gp)) - usedGas
 //@   ensures[C06] @gaslimit err == nil ==> old(uint64(*st.gp)) >= msg_gas(st.msg)
 //@   nopanic[C06]
+
+// ---- evm.go ---------------------------------------------------------------------------------
+// A transfer moves value: the sum of all balances is unchanged, the sender loses and the
+// recipient gains exactly the amount (also when sender == recipient).
+//@ func Transfer
+//@   requires db != nil && amount != nil
+//@   ensures[C05] supply == old(supply)
+//@   ensures[C05] bal == store(store(old(bal), sender, old(bal[sender]) - old(big(amount))), recipient, store(old(bal), sender, old(bal[sender]) - old(big(amount)))[recipient] + old(big(amount)))
+//@   assigns bal, supply
+//@   nopanic[C05]
+
+//@ func CanTransfer
+//@   requires db != nil && amount != nil
+//@   ensures[C05] result <==> bal[addr] >= big(amount)
+//@   assigns nothing
+//@   nopanic[C05]
